@@ -3,6 +3,8 @@ from .. import matrix
 from ..lib.core import AnalysisBroken
 from ..rules import shape, lifetime, ownership
 
+from ..rules import round5
+
 
 def run(tier, runner):
     pts = matrix.vec_points(tier)
@@ -26,9 +28,11 @@ def run(tier, runner):
     r_cd.require(15, 'constructs into container storage')
     r_tt.require(4, 'throw expressions of the vector headers')
     r_w.require(16, 'capacity requests')
+    r_rm = round5.range_measure(progs + real)
+    r_rm.require(4, 'range members instantiated with a multi-pass iterator')
     return {
-        'results': [r_tt, r_w, r_geo, r_cd, r_cf, r_ew, ob['TEMP']],
-        'explanation': 'THROW-TYPE: the only throw expressions of the vector headers are the fixed-capacity check (out_of_range, exactly when the request '
+        'results': [r_tt, r_w, r_geo, r_cd, r_cf, r_ew, ob['TEMP'], r_rm],
+        'explanation': 'RANGE-MEASURE: range members instantiated with multi-pass iterators (pointers, forward iterators) test the limit once for the whole range before modifying anything.  THROW-TYPE: the only throw expressions of the vector headers are the fixed-capacity check (out_of_range, exactly when the request '
                        'exceeds the capacity), SafeNextCapacity and swap_sizetype (overflow_error) and at() (out_of_range exactly when idx >= size()).  '
                        'WIDEN: every size handed to a capacity check / grow is computed in a type wider than size_type or in 64 bits, per size_type '
                        'archetype, from the type of the instantiated expression.  GEO: SafeNextCapacity clamps at size_type max and throws before any effect.  EXACT-WHO: the exact path of SafeNextCapacity has no overflow test (its only caller, reserve, takes a size_type); no element-adding operation - whose request is computed in uintmax_t - reaches a capacity request with exact = true.  CHECK-FIRST: in every operation that tests the limit itself the test precedes the first modification of the container on every path (path-sensitive typestate over the structured body).',
